@@ -475,17 +475,22 @@ pub fn mk_rf(i: u64) -> crate::vmodel::RF {
     crate::vmodel::RF((i as f64 * 0.5 + 2.25).to_bits())
 }
 
-/// Replay of one round of a scenario of this module (signature C05/<kind>/<scenario>/...).
-pub fn replay_scenario(sig: &str, case: &serde_json::Value) -> Option<Result<(), String>> {
-    let parts: Vec<&str> = sig.split('/').collect();
-    if parts.len() < 3 {
-        return None;
-    }
+/// Replay of one round of a scenario of this module. The scenario is recognised by the recorded
+/// context: `terminal_capacity` (terminal probe), `capacity` < 100 (capacity probe), else
+/// the automatic-collection scenario.
+pub fn replay_scenario(_sig: &str, case: &serde_json::Value) -> Option<Result<(), String>> {
     let seed = case["seed"].as_u64()?;
-    let (kind, scen) = (parts[1], parts[2]);
+    let kind = case["kind"].as_str()?.to_string();
+    let scen = if case.get("terminal_capacity").is_some() {
+        "terminal-probe"
+    } else if case["capacity"].as_u64()? < 100 {
+        "capacity-probe"
+    } else {
+        "auto-gc"
+    };
     let out = isolated(300, |w| {
         let mut rep = Report::default();
-        match (scen, kind) {
+        match (scen, kind.as_str()) {
             ("capacity-probe", "bdd") => capacity_probe::<BddK>(seed, 1, true, &mut rep),
             ("capacity-probe", "bcdd") => capacity_probe::<BcddK>(seed, 1, true, &mut rep),
             ("capacity-probe", "zbdd") => capacity_probe::<ZbddK>(seed, 1, true, &mut rep),
@@ -494,15 +499,12 @@ pub fn replay_scenario(sig: &str, case: &serde_json::Value) -> Option<Result<(),
             ("auto-gc", "zbdd") => auto_gc::<ZbddK>(seed, 1, true, &mut rep),
             ("terminal-probe", "mtbdd-i64") => terminal_probe::<MtI64K>(seed, 1, true, &mk_ri, &mut rep),
             ("terminal-probe", "mtbdd-f64") => terminal_probe::<MtF64K>(seed, 1, true, &mk_rf, &mut rep),
-            _ => {}
+            _ => rep.inconclusive.push("replay: unknown scenario".into()),
         }
         rep.emit(w);
     });
     let mut total = Report::default();
     merge_jobs(&mut total, vec![out], &[format!("replay/{scen}/{kind}")]);
-    if !matches!(scen, "capacity-probe" | "auto-gc" | "terminal-probe") {
-        return None;
-    }
     Some(match total.viols.first() {
         Some(v) => Err(format!("{}: {}", v.sig, v.what)),
         None => Ok(()),
